@@ -13,6 +13,7 @@ fn main() {
         "merkle" => merkle::run(&cli),
         "codec" => codec::run(&cli),
         "crypto" => crypto::run(&cli),
+        "nest" => secrets::nest_probe(&cli),
         d => {
             eprintln!("unknown domain {d}");
             std::process::exit(2);
